@@ -401,6 +401,8 @@ func init() {
 		ruleFormatData(c, "FORMAT-DATA", p.ModulePkgs())
 		ruleNilBreak(c, "NIL-ELEMENT-BREAK", p.ModulePkgs())
 		ruleWalkCut(c, "WALK-CUT", p.ModulePkgs(), 0)
+		ruleIndexedReturn(c, "INDEXED-RETURN-SORTED", p.ModulePkgs())
+		ruleMemoDropsResult(c, "MEMO-DROPS-RESULT", p.ModulePkgs())
 		ruleInPlaceFilter(c, "INPLACE-FILTER-PARAM", p.ModulePkgs())
 		ruleDerivedKeyStores(c, "DERIVED-KEY-STORE", p.ModulePkgs())
 		ruleAnticipatory(c, "", p.ModulePkgs())
